@@ -3,6 +3,8 @@
 E1  Lifecycle.tla (AssignImpl = "fixed"): Refines, NoAlias, NoUseAfterFree, NoDoubleFree, NoLeak, ConfigKept,
     RoundTrip + SourceUnchanged over all histories of 2 slots (<=5 ops quick, <=6 thorough) and 3 slots (<=5);
     the "pinned" configuration must FAIL with the self-copy-assignment counterexample (documented defect).
+E3  a seeded random driver (independent of TLC's enumeration) performs 70-operation histories on real fields; every logged
+    operation and the observed projection of every slot must be a step of the specification (Trace_Lifecycle).
 E2  LifecycleGen: one witness behaviour per transition of the abstract state graph (VIEW hides the history) plus
     seeded simulated histories of 30 operations; each is replayed on real fields and after every step all values of
     all live fields, their configurations and the number of live storage blocks (replaced operator new[]/delete[])
@@ -31,5 +33,16 @@ def run(ck):
     files.append(f2)
     ck.bound("simulated_history_length", 30)
     lc.replay(ck, files, ["asan"] if ck.quick else ["asan", "rel", "asan0"])
+    # E3, code -> spec: a seeded random driver performs long histories on real fields and logs every operation with the
+    # observed projection of every slot; Trace_Lifecycle explains each event by the corresponding action of the specification
+    b = ck.build("h_lifecycle", "h_lifecycle.cpp", "asan")
+    if b:
+        for k in range(2 if ck.quick else 12):
+            tr = ck.path("drive-%d.ndjson" % k)
+            rc, out, err = ck.run([b, "drive", str(ck.seed * 100 + k), "6", "70", tr], timeout=600)
+            s = ck.harness_output("lifecycle-drive", rc, out, err)
+            if rc == 0:
+                ck.validate_trace("Trace_Lifecycle", "Trace_Lifecycle.cfg", tr, "lifecycle/driver-trace", n_traces=6, n_events=s.get("events", 0))
+        ck.bound("driver_history_length", 70)
     ck.assume("moved-from fields and the target of a self-move-assignment are unspecified: only destruction and assignment to them are exercised")
     ck.assume("views are taken immediately before each access; a view outliving its field is outside the property")
